@@ -501,9 +501,9 @@ class Discharger:
                 g = test.left
                 if isinstance(g, ast.Call) and isinstance(g.func, ast.Attribute) and g.func.attr == "get" and src(g.func.value) == bs and len(g.args) == 1 and src(g.args[0]) == src(idx):
                     return f"guarded by `{bs}.get({src(idx)}) is not None`"
-            if truth and isinstance(test, ast.Compare) and isinstance(test.ops[0], ast.In) and src(test.left) == src(idx) and src(test.comparators[0]) == bs:
+            if truth and isinstance(test, ast.Compare) and isinstance(test.ops[0], ast.In) and src(test.left) == src(idx) and src(test.comparators[0]) == bs and self._stable_between(f, test, n, src(idx)):
                 return f"guarded by `{src(idx)} in {bs}`"
-            if not truth and isinstance(test, ast.Compare) and isinstance(test.ops[0], ast.NotIn) and src(test.left) == src(idx) and src(test.comparators[0]) == bs:
+            if not truth and isinstance(test, ast.Compare) and isinstance(test.ops[0], ast.NotIn) and src(test.left) == src(idx) and src(test.comparators[0]) == bs and self._stable_between(f, test, n, src(idx)):
                 return f"guarded by `{src(idx)} not in {bs}` being false"
         # `if key not in d: raise/return` earlier in the function (the statement is reachable only when the key is there)
         cfg = self.cfg(f)
@@ -527,6 +527,28 @@ class Discharger:
                 if target in present_only and target not in absent_reach and not self._rebinds_between(f, src(idx), bs):
                     return f"every path to the lookup passed a membership test of `{src(idx)}` in `{bs}` that held"
         return None
+
+    def _stable_between(self, f: Func, test: ast.AST, use: ast.AST, name: str) -> bool:
+        """The variable that was tested is still the variable that is used: no statement on a way from the test to the
+        use binds `name` again (a loop that unpacks a new value into it after the test was made on the first one)."""
+        if not name.isidentifier():
+            return True
+        cfg = self.cfg(f)
+        g, t = cfg.node_containing(test), cfg.node_containing(use)
+        if g is None or t is None:
+            return True
+        after = cfg.reachable(g, labels_avoid=("exc",))
+        for m in after:
+            if m is g or m.ast is None or m.kind not in ("stmt", "for"):
+                continue
+            if t is not m and t not in cfg.reachable(m, labels_avoid=("exc",)):
+                continue
+            root = m.ast.target if m.kind == "for" else m.ast
+            if m is t and m.kind == "stmt":
+                continue
+            if any(isinstance(y, ast.Name) and y.id == name and isinstance(y.ctx, ast.Store) for y in ast.walk(root)):
+                return False
+        return True
 
     def _reach_only_via(self, cfg: CFG, absent_edges) -> Set[Node]:
         """Nodes reachable from the entry when every membership test is answered 'absent' (present edges removed)."""
